@@ -126,13 +126,23 @@ def r38(F):
                 continue
             labs = o.at(fn.term(pb)["args"][1], pb)
             from_result = any(l[0] == "call" and l[1] == FCALL for l in labs)
+            # in the runtime hooks (map / filter / reduce / ...) the frame is the position of the functional operator, which the hook
+            # receives as a parameter; a position taken from the operand (an element's own position) points at the statement that
+            # wrote the list, not at the one that calls
+            if not from_result and n.startswith("ucglib::build::opcode::runtime::"):
+                pos_params = {k for k in range(1, fn.nargs + 1) if fn.local_ty(k).replace("&", "").strip() == "ucglib::ast::Position"}
+                params = {l[1] for l in labs if l[0] == "param"}
+                from_elem = any(l[0] == "call" and l[1].split("::")[-1] in ("next", "zip", "get", "index", "enumerate") for l in labs)
+                if pos_params and (not (params & pos_params) or from_elem):
+                    from_result = True
             key = "%s->fcall_impl:frame-position" % n.split("::")[-1]
             if any(i["key"].startswith("R38:" + key) and not i["ok"] for i in r.instances):
                 continue
             r.inst(key, fn.where(pb), not from_result,
                    "the frame records a position of the call" if not from_result else
-                   "the position recorded for the frame can be one returned by an earlier callback (loop-carried): the VIA line points "
-                   "into the function body and the calling statement is not listed")
+                   "the position recorded for the frame is not (only) the position of the call: it can come back from an earlier callback or "
+                   "belong to an element of the operand, so the VIA line points into a function body or at the statement that wrote the "
+                   "list, and the calling statement is not listed")
     # the value a call produces is positioned at the call
     of = F.fn(VM + "op_fcall")
     oo = _origins(of)
